@@ -22,6 +22,7 @@ def run(rep):
     rep.guard(s6, rep, w)
     rep.guard(s7, rep, w)
     rep.guard(s8, rep, w, 'C06')
+    rep.guard(s9, rep, w, 'C06')
     import cache
     rep.guard(cache.cc1, rep, w, 'C06')     # a remembered global / attribute look-up must not outlive a write to the table it came from
     import c08
@@ -546,3 +547,31 @@ def s8(rep, w, prop='C06'):
                 if pl and any(isinstance(e, dict) and e.get('n') == 'caller' for e in pl.get('p', [])):
                     follows = True
         r.check(follows, 'the loop steps along ObjFiber.caller', 'the loop in reset_stack does not follow the caller link of the fiber it has just closed', f.loc())
+
+
+def s9(rep, w, prop='C06'):
+    """an open upvalue is a raw address into its fiber's value stack (and the interpreter keeps `top` as a raw pointer too): the
+    storage behind a Stack is therefore allocated once and never replaced while the stack is in use - only the constructors
+    (new / default / clone) assign it. A stack that reallocates when it grows leaves every open upvalue pointing at the old block."""
+    r = rep.rule('S9', 'the storage of the value stack is assigned only when the stack is created (it never moves while captured variables point into it)', floor=1)
+    c = w.yarel
+    ST = 'yarel::stack::Stack'
+    a = c.adts.get(ST)
+    if a is None:
+        raise Broken(prop, 'anchor', 'type Stack not found')
+    storage = [fd['n'] for fd in a['variants'][0]['fields'] if not c.tstr(fd['t']).startswith('*')]
+    writers = {}
+    for g in c.fns.values():
+        for bi in g.normal_blocks():
+            for s_ in g.blocks[bi]['s']:
+                d = s_.get('d') or {}
+                ps = d.get('p') or []
+                if ps and isinstance(ps[-1], dict) and ps[-1].get('n') in storage and c01.base_type_before_last(g, d) == ST:
+                    writers.setdefault(g.path, g.loc(s_.get('sp')))
+    ctor = {p_ for p_ in writers if p_.rsplit('::', 1)[-1] in ('new', 'default', 'clone', 'clone_from')}
+    r.ok('constructors that build the storage: %s' % sorted(x.rsplit('::', 2)[-2] + '::' + x.rsplit('::', 1)[-1] for x in ctor))
+    for p_, loc in sorted(writers.items()):
+        if p_ in ctor:
+            continue
+        r.bad('%s replaces the storage of a Stack' % p_.replace('yarel::', ''), '%s assigns the storage block of a Stack that is already in use: open upvalues (raw addresses of captured variables) and the '
+              'cached stack pointers keep pointing into the block that was replaced' % p_, loc)
